@@ -23,25 +23,34 @@ Inductive sconf :=
 | CPoisson (n size nnz : Z)            (* sparse data + uniform gradient sampler: stratified with Poisson(n*nnz/size), Poisson(n*(size-nnz)/size) counts *)
 | CError.                              (* ValueError / ZeroDivisionError *)
 
-Definition cdiv (a b : Z) : Z := (a + b - 1) / b.              (* math.ceil(a / b) for a >= 0, b > 0 *)
+Definition cdiv (a b : Z) : Z := (a + b - 1) / b.              (* the exact ceiling of a / b for a >= 0, b > 0 *)
+
+(* The code computes the default counts with math.ceil of a FLOAT quotient: ceil(num_nonzeros / 100), ceil(tensor_size / 10),
+   ceil(3 * num_nonzeros / max_iters), ceil(10 * tensor_size / max_iters).  The table below is a transliteration in which that
+   float computation is an ORACLE  cd : numerator -> denominator -> Z  (the harness records every call of samplers.ceil: the float
+   argument and the answer, and the generated cases run the table with the recorded answers, see cd_obs).  Every theorem below
+   holds for EVERY oracle: none of them depends on how the quotient is rounded.  fn_config / gr_config are the instances with the
+   exact ceiling cdiv. *)
+Section ConfigOracle.
+Variable cd : Z -> Z -> Z.
 
 Definition default_kind (sparse : bool) (k : option skind) : skind :=
   match k with Some k => k | None => if sparse then Stratified else Uniform end.
 
 (* _prepare_function_sampler *)
-Definition fn_config (sparse : bool) (size nnz : Z) (k : option skind) (req : sreq) : sconf :=
+Definition fn_config_o (sparse : bool) (size nnz : Z) (k : option skind) (req : sreq) : sconf :=
   match default_kind sparse k with
   | Stratified =>
       if negb sparse then CError else
       match req with
-      | RNone => let ftmp := Z.max (cdiv nnz 100) (10 ^ 5) in
+      | RNone => let ftmp := Z.max (cd nnz 100) (10 ^ 5) in
                  CStratified (Z.min ftmp nnz) (Z.min (Z.min ftmp nnz) (size - nnz))
       | RInt n => CStratified n n
       | RStrat nz z => CStratified nz z
       end
   | Uniform =>
       match req with
-      | RNone => CUniform (Z.min (Z.max (cdiv size 10) (10 ^ 6)) size)
+      | RNone => CUniform (Z.min (Z.max (cd size 10) (10 ^ 6)) size)
       | RInt n => CUniform n
       | RStrat _ _ => CError
       end
@@ -49,20 +58,20 @@ Definition fn_config (sparse : bool) (size nnz : Z) (k : option skind) (req : sr
   end.
 
 (* _prepare_gradient_sampler *)
-Definition gr_config (sparse : bool) (size nnz max_iters : Z) (k : option skind) (req : sreq) : sconf :=
+Definition gr_config_o (sparse : bool) (size nnz max_iters : Z) (k : option skind) (req : sreq) : sconf :=
   match default_kind sparse k with
   | Uniform =>
       match req with
       | RStrat _ _ => CError
       | RNone => if max_iters =? 0 then CError else
-                 let n := Z.min (Z.max 1000 (cdiv (10 * size) max_iters)) size in
+                 let n := Z.min (Z.max 1000 (cd (10 * size) max_iters)) size in
                  if sparse then CPoisson n size nnz else CUniform n
       | RInt n => if sparse then CPoisson n size nnz else CUniform n
       end
   | kd =>
       let cnt := match req with
                  | RNone => if max_iters =? 0 then None else
-                            let gtmp := Z.max 1000 (cdiv (3 * nnz) max_iters) in
+                            let gtmp := Z.max 1000 (cd (3 * nnz) max_iters) in
                             Some (Z.min gtmp nnz, Z.min (Z.min gtmp nnz) (size - nnz))
                  | RInt n => Some (n, n)
                  | RStrat nz z => Some (nz, z)
@@ -76,6 +85,44 @@ Definition gr_config (sparse : bool) (size nnz max_iters : Z) (k : option skind)
           end
       end
   end.
+
+(* how often math.ceil is called while one side is configured (the harness compares the number of recorded calls) *)
+Definition fn_ceil_calls (sparse : bool) (k : option skind) (req : sreq) : nat :=
+  match default_kind sparse k, req with
+  | Stratified, RNone => if sparse then 1%nat else 0%nat
+  | Uniform, RNone => 1%nat
+  | _, _ => 0%nat
+  end.
+Definition gr_ceil_calls (max_iters : Z) (req : sreq) : nat :=
+  match req with RNone => if max_iters =? 0 then 0%nat else 1%nat | _ => 0%nat end.
+(* WHICH quotient (numerator, denominator) is handed to math.ceil — the recorded call must be this quotient *)
+Definition fn_ceil_query (sparse : bool) (size nnz : Z) (k : option skind) (req : sreq) : option (Z * Z) :=
+  match default_kind sparse k, req with
+  | Stratified, RNone => if sparse then Some (nnz, 100) else None
+  | Uniform, RNone => Some (size, 10)
+  | _, _ => None
+  end.
+Definition gr_ceil_query (sparse : bool) (size nnz max_iters : Z) (k : option skind) (req : sreq) : option (Z * Z) :=
+  match req with
+  | RNone => if max_iters =? 0 then None else
+             match default_kind sparse k with
+             | Uniform => Some (10 * size, max_iters)
+             | _ => Some (3 * nnz, max_iters)
+             end
+  | _ => None
+  end.
+Lemma ceil_query_calls sparse size nnz max_iters k req :
+  fn_ceil_calls sparse k req = (match fn_ceil_query sparse size nnz k req with Some _ => 1 | None => 0 end)%nat /\
+  gr_ceil_calls max_iters req = (match gr_ceil_query sparse size nnz max_iters k req with Some _ => 1 | None => 0 end)%nat.
+Proof.
+  unfold fn_ceil_calls, fn_ceil_query, gr_ceil_calls, gr_ceil_query. split.
+  - destruct (default_kind sparse k), req, sparse; reflexivity.
+  - destruct req; try reflexivity. destruct (max_iters =? 0); [reflexivity|]. destruct (default_kind sparse k); reflexivity.
+Qed.
+End ConfigOracle.
+
+Definition fn_config := fn_config_o cdiv.
+Definition gr_config := gr_config_o cdiv.
 
 (* the correction range handed to fg_est.estimate: arange(num_nonzeros) for the semi-stratified sampler, empty otherwise *)
 Definition crng_len (c : sconf) : Z := match c with CSemistrat nz _ => nz | _ => 0 end.
@@ -93,89 +140,115 @@ Definition conf_feasible (size nnz : Z) (c : sconf) : Prop :=
 Lemma cdiv_nonneg a b : 0 <= a -> 0 < b -> 0 <= cdiv a b.
 Proof. intros. unfold cdiv. apply Z.div_pos; lia. Qed.
 
-(* ---- the decision table ---- *)
-(* (a) DEFAULT counts (no request) never ask for more than the tensor holds: at most every nonzero, at most every zero,
-       never more zeros than nonzeros, at most every entry for the uniform sampler — for every tensor size *)
-Theorem fn_default_feasible sparse size nnz k :
-  0 <= nnz <= size -> fn_config sparse size nnz k RNone <> CError ->
-  conf_feasible size nnz (fn_config sparse size nnz k RNone).
+(* cdiv is the exact ceiling: the least c with a <= c * b *)
+Theorem cdiv_spec a b : 0 < b -> (cdiv a b - 1) * b < a <= cdiv a b * b.
 Proof.
-  intros H. unfold fn_config. destruct (default_kind sparse k); [| |congruence].
-  - intros _. cbn. pose proof (cdiv_nonneg size 10). lia.
-  - destruct sparse; cbn [negb]; [|congruence]. intros _. cbn. pose proof (cdiv_nonneg nnz 100). lia.
+  intros Hb. unfold cdiv.
+  pose proof (Z.div_mod (a + b - 1) b ltac:(lia)) as E. pose proof (Z.mod_pos_bound (a + b - 1) b Hb) as M. nia.
+Qed.
+
+(* ---- the decision table, for EVERY ceil oracle cd ---- *)
+Section Table.
+Variable cd : Z -> Z -> Z.
+Notation fn := (fn_config_o cd).
+Notation gr := (gr_config_o cd).
+
+(* (a) DEFAULT counts (no request) never ask for more than the tensor holds: at most every nonzero, at most every zero,
+       never more zeros than nonzeros, at most every entry for the uniform sampler — for every tensor size and however the
+       float quotient inside ceil is rounded *)
+Theorem fn_default_feasible sparse size nnz k :
+  0 <= nnz <= size -> fn sparse size nnz k RNone <> CError ->
+  conf_feasible size nnz (fn sparse size nnz k RNone).
+Proof.
+  intros H. unfold fn_config_o. destruct (default_kind sparse k); [| |congruence].
+  - intros _. cbn. lia.
+  - destruct sparse; cbn [negb]; [|congruence]. intros _. cbn. lia.
 Qed.
 
 Theorem gr_default_feasible sparse size nnz max_iters k :
-  0 <= nnz <= size -> 0 < max_iters -> gr_config sparse size nnz max_iters k RNone <> CError ->
-  conf_feasible size nnz (gr_config sparse size nnz max_iters k RNone).
+  0 <= nnz <= size -> 0 < max_iters -> gr sparse size nnz max_iters k RNone <> CError ->
+  conf_feasible size nnz (gr sparse size nnz max_iters k RNone).
 Proof.
-  intros H Hm. unfold gr_config. replace (max_iters =? 0) with false by (symmetry; apply Z.eqb_neq; lia).
-  pose proof (cdiv_nonneg (10 * size) max_iters). pose proof (cdiv_nonneg (3 * nnz) max_iters).
+  intros H Hm. unfold gr_config_o. replace (max_iters =? 0) with false by (symmetry; apply Z.eqb_neq; lia).
   destruct (default_kind sparse k); destruct sparse; cbn [negb]; intros Hne; try congruence; cbn; lia.
 Qed.
 
 (* (b) small tensors: the defaults take EVERY nonzero (and as many zeros, capped by the zeros there are) resp. every entry *)
 Theorem fn_default_small size nnz :
   0 <= nnz <= size ->
-  (nnz <= 10 ^ 5 -> fn_config true size nnz None RNone = CStratified nnz (Z.min nnz (size - nnz))) /\
-  (size <= 10 ^ 6 -> fn_config false size nnz None RNone = CUniform size).
+  (nnz <= 10 ^ 5 -> fn true size nnz None RNone = CStratified nnz (Z.min nnz (size - nnz))) /\
+  (size <= 10 ^ 6 -> fn false size nnz None RNone = CUniform size).
 Proof.
-  intros H. unfold fn_config. cbn [default_kind negb]. split; intros Hs.
-  - f_equal; lia.
-  - f_equal. pose proof (cdiv_nonneg size 10). lia.
+  intros H. unfold fn_config_o. cbn [default_kind negb]. split; intros Hs; f_equal; lia.
 Qed.
 
 Theorem gr_default_small size nnz max_iters :
   0 <= nnz <= size -> 0 < max_iters ->
-  (nnz <= 1000 -> gr_config true size nnz max_iters None RNone = CStratified nnz (Z.min nnz (size - nnz))) /\
-  (size <= 1000 -> gr_config false size nnz max_iters None RNone = CUniform size).
+  (nnz <= 1000 -> gr true size nnz max_iters None RNone = CStratified nnz (Z.min nnz (size - nnz))) /\
+  (size <= 1000 -> gr false size nnz max_iters None RNone = CUniform size).
 Proof.
-  intros H Hm. unfold gr_config. cbn [default_kind negb].
-  replace (max_iters =? 0) with false by (symmetry; apply Z.eqb_neq; lia). split; intros Hs.
-  - f_equal; lia.
-  - f_equal. lia.
+  intros H Hm. unfold gr_config_o. cbn [default_kind negb].
+  replace (max_iters =? 0) with false by (symmetry; apply Z.eqb_neq; lia). split; intros Hs; f_equal; lia.
 Qed.
 
 (* (c) explicit requests are taken as they are: an int for the uniform sampler; an int n (= n nonzeros and n zeros) or a
        StratifiedCount for the (semi-)stratified ones *)
 Theorem explicit_requests sparse size nnz max_iters n nz z :
-  fn_config sparse size nnz (Some Uniform) (RInt n) = CUniform n /\
-  fn_config true size nnz (Some Stratified) (RInt n) = CStratified n n /\
-  fn_config true size nnz (Some Stratified) (RStrat nz z) = CStratified nz z /\
-  gr_config false size nnz max_iters (Some Uniform) (RInt n) = CUniform n /\
-  gr_config true size nnz max_iters (Some Uniform) (RInt n) = CPoisson n size nnz /\
-  gr_config true size nnz max_iters (Some Stratified) (RInt n) = CStratified n n /\
-  gr_config true size nnz max_iters (Some Stratified) (RStrat nz z) = CStratified nz z /\
-  gr_config sparse size nnz max_iters (Some Semistratified) (RInt n) = CSemistrat n n /\
-  gr_config sparse size nnz max_iters (Some Semistratified) (RStrat nz z) = CSemistrat nz z.
+  fn sparse size nnz (Some Uniform) (RInt n) = CUniform n /\
+  fn true size nnz (Some Stratified) (RInt n) = CStratified n n /\
+  fn true size nnz (Some Stratified) (RStrat nz z) = CStratified nz z /\
+  gr false size nnz max_iters (Some Uniform) (RInt n) = CUniform n /\
+  gr true size nnz max_iters (Some Uniform) (RInt n) = CPoisson n size nnz /\
+  gr true size nnz max_iters (Some Stratified) (RInt n) = CStratified n n /\
+  gr true size nnz max_iters (Some Stratified) (RStrat nz z) = CStratified nz z /\
+  gr sparse size nnz max_iters (Some Semistratified) (RInt n) = CSemistrat n n /\
+  gr sparse size nnz max_iters (Some Semistratified) (RStrat nz z) = CSemistrat nz z.
 Proof. repeat split; reflexivity. Qed.
 
 (* (d) rejected rows: stratified sampling of dense data, a semi-stratified FUNCTION sampler, a StratifiedCount for the
        uniform sampler *)
 Theorem rejected_requests size nnz max_iters req nz z k :
-  fn_config false size nnz (Some Stratified) req = CError /\
-  gr_config false size nnz max_iters (Some Stratified) req = CError /\
-  fn_config k size nnz (Some Semistratified) req = CError /\
-  fn_config k size nnz (Some Uniform) (RStrat nz z) = CError /\
-  gr_config k size nnz max_iters (Some Uniform) (RStrat nz z) = CError.
+  fn false size nnz (Some Stratified) req = CError /\
+  gr false size nnz max_iters (Some Stratified) req = CError /\
+  fn k size nnz (Some Semistratified) req = CError /\
+  fn k size nnz (Some Uniform) (RStrat nz z) = CError /\
+  gr k size nnz max_iters (Some Uniform) (RStrat nz z) = CError.
 Proof.
   repeat split; try reflexivity.
-  - unfold gr_config. cbn [default_kind negb]. destruct req; [destruct (max_iters =? 0)| |]; reflexivity.
+  - unfold gr_config_o. cbn [default_kind negb]. destruct req; [destruct (max_iters =? 0)| |]; reflexivity.
 Qed.
 
 (* (e) the kind defaults: sparse data -> stratified, dense data -> uniform (function and gradient alike); the correction
        range is non-empty only for the semi-stratified sampler and then covers exactly the nonzero samples *)
 Theorem kind_defaults_and_crng sparse size nnz max_iters req :
   default_kind sparse None = (if sparse then Stratified else Uniform) /\
-  crng_len (fn_config sparse size nnz None req) = 0 /\
-  crng_len (gr_config sparse size nnz max_iters None req) = 0 /\
-  (forall nz z, gr_config sparse size nnz max_iters (Some Semistratified) req = CSemistrat nz z ->
-                crng_len (gr_config sparse size nnz max_iters (Some Semistratified) req) = nz).
+  crng_len (fn sparse size nnz None req) = 0 /\
+  crng_len (gr sparse size nnz max_iters None req) = 0 /\
+  (forall nz z, gr sparse size nnz max_iters (Some Semistratified) req = CSemistrat nz z ->
+                crng_len (gr sparse size nnz max_iters (Some Semistratified) req) = nz).
 Proof.
   repeat split.
-  - unfold fn_config. destruct sparse; cbn; destruct req; reflexivity.
-  - unfold gr_config. destruct sparse; cbn [default_kind negb]; destruct req; try destruct (max_iters =? 0); reflexivity.
+  - unfold fn_config_o. destruct sparse; cbn; destruct req; reflexivity.
+  - unfold gr_config_o. destruct sparse; cbn [default_kind negb]; destruct req; try destruct (max_iters =? 0); reflexivity.
   - intros nz z ->. reflexivity.
+Qed.
+
+(* (f) math.ceil is called exactly when a default count is computed: never for an explicit request *)
+Theorem ceil_calls_only_for_defaults sparse k max_iters req :
+  req <> RNone -> fn_ceil_calls sparse k req = 0%nat /\ gr_ceil_calls max_iters req = 0%nat.
+Proof. intros H. unfold fn_ceil_calls, gr_ceil_calls. destruct (default_kind sparse k), req; try congruence; auto. Qed.
+End Table.
+
+(* two oracles that agree on the (at most one) quotient a side asks for give the same configuration *)
+Theorem config_oracle_ext cd1 cd2 sparse size nnz max_iters k req :
+  (cd1 nnz 100 = cd2 nnz 100 -> cd1 size 10 = cd2 size 10 ->
+   fn_config_o cd1 sparse size nnz k req = fn_config_o cd2 sparse size nnz k req) /\
+  (cd1 (10 * size) max_iters = cd2 (10 * size) max_iters -> cd1 (3 * nnz) max_iters = cd2 (3 * nnz) max_iters ->
+   gr_config_o cd1 sparse size nnz max_iters k req = gr_config_o cd2 sparse size nnz max_iters k req).
+Proof.
+  split; intros H1 H2.
+  - unfold fn_config_o. now rewrite H1, H2.
+  - unfold gr_config_o. now rewrite H1, H2.
 Qed.
 
 (* non-vacuity: a 1000 x 1000 x 1000 sparse tensor with 250 000 nonzeros, max_iters = 1000; a 300 x 200 x 200 dense one *)
@@ -211,25 +284,26 @@ Record kwargs := mkKw { kw_callback : slot; kw_other : KW }.
 Definition bounds_of (lb : option V) (x0 : list V) : list (option V * option V) := repeat (lb, None) (length x0).
 Definition within (lb : option V) (x : V) : Prop := match lb with None => True | Some b => vle b x end.
 
-(* scipy.optimize.fmin_l_bfgs_b(func, x0, bounds, **kwargs) -> (final_vector, final_f): an ORACLE *)
-Variable scipy : (list V -> F) -> list V -> list (option V * option V) -> kwargs -> list V * F.
+(* scipy.optimize.fmin_l_bfgs_b(func, x0, bounds, **kwargs) -> (final_vector, final_f, info["warnflag"]): an ORACLE *)
+Variable scipy : (list V -> F) -> list V -> list (option V * option V) -> kwargs -> list V * F * nat.
 (* the stated contract of the oracle: the returned point x has the length of the start, is never worse than a FEASIBLE start
    (an infeasible start is first projected into the box, which may change the objective either way) and a feasible start
-   stays feasible.  NOTHING is assumed about the reported value fx here: when a line search is abandoned
-   (ABNORMAL_TERMINATION_IN_LNSRCH; e.g. maxls = 1) scipy goes back to its previous iterate but reports the value of the
-   rejected trial point, which may exceed the starting objective (observed with scipy 1.14; finding C13-L1) *)
+   stays feasible.  NOTHING is assumed about the reported value fx here. *)
 Definition scipy_contract : Prop :=
-  forall func x0 lb kw, let '(x, fx) := scipy func x0 (bounds_of lb x0) kw in
+  forall func x0 lb kw, let '(x, fx, wf_) := scipy func x0 (bounds_of lb x0) kw in
     length x = length x0 /\ (Forall (within lb) x0 -> leb (func x) (func x0) = true /\ Forall (within lb) x).
-(* the documented extra clause "f = value of func at the minimum": holds on every run that does not abandon a line search *)
+(* the documented extra clause "f = value of func at the minimum" holds on every run that does not abandon a line search.  When a
+   line search is abandoned (ABNORMAL_TERMINATION_IN_LNSRCH, warnflag 2; e.g. maxls = 1) scipy goes back to its previous iterate but
+   reports the value of the rejected trial point, which may exceed the starting objective (observed with scipy 1.14; that was
+   finding C13-L1, repaired in /repo a2890fd: LBFGSB.solve re-evaluates the returned model when warnflag = 2) *)
 Definition scipy_reports_value : Prop :=
-  forall func x0 lb kw, let '(x, fx) := scipy func x0 (bounds_of lb x0) kw in fx = func x.
+  forall func x0 lb kw, let '(x, fx, wf_) := scipy func x0 (bounds_of lb x0) kw in wf_ <> 2 -> fx = func x.
 (* feasibility alone (scipy projects the start into the box): used for the bound on the result *)
 Definition scipy_feasible : Prop :=
-  forall func x0 lb kw, Forall (within lb) (fst (scipy func x0 (bounds_of lb x0) kw)).
+  forall func x0 lb kw, Forall (within lb) (fst (fst (scipy func x0 (bounds_of lb x0) kw))).
 
 Record outcome := mkOut { o_model : Mdl; o_final_f : F; o_kwargs : kwargs; o_bounds : list (option V * option V);
-                          o_kwargs_during : kwargs; o_final_vector : list V }.
+                          o_kwargs_during : kwargs; o_final_vector : list V; o_warnflag : nat }.
 
 Definition user_cb (s : slot) : option CB := match s with UserCb c => c | MonitorOf c => c end.
 
@@ -238,9 +312,11 @@ Definition lbfgsb_solve (kw : kwargs) (m0 : Mdl) (lb : option V) : outcome :=
   let func := fun v => objective (update m0 v) in                        (* lbfgsb_func_grad: model.update(...); evaluate(...) *)
   let during := mkKw (MonitorOf (user_cb (kw_callback kw))) (kw_other kw) in  (* monitor = Monitor(maxiter, kwargs.get("callback")) *)
   let bnds := bounds_of lb x0 in                                         (* [(lower_bound, np.inf)] * len(x0) *)
-  let '(x, fx) := scipy func x0 bnds during in
+  let '(x, fx, wflag) := scipy func x0 bnds during in
+  let m := update m0 x in                                                (* model.update(np.arange(ndims), final_vector) *)
+  let ff := if Nat.eqb wflag 2 then objective m else fx in               (* if warnflag == 2: final_f = evaluate(model, ...) *)
   let after := mkKw (UserCb (user_cb (kw_callback during))) (kw_other during) in  (* kwargs["callback"] = monitor.callback *)
-  mkOut (update m0 x) fx after bnds during x.
+  mkOut m ff after bnds during x wflag.
 
 Theorem lbfgsb_wrap : scipy_contract -> forall cb other m0 lb, wf m0 ->
   let o := lbfgsb_solve (mkKw (UserCb cb) other) m0 lb in
@@ -258,19 +334,27 @@ Theorem lbfgsb_wrap : scipy_contract -> forall cb other m0 lb, wf m0 ->
 Proof.
   intros HC cb other m0 lb Hwf. unfold lbfgsb_solve. cbn [kw_callback kw_other user_cb].
   specialize (HC (fun v => objective (update m0 v)) (tovec m0) lb (mkKw (MonitorOf cb) other)).
-  destruct (scipy (fun v => objective (update m0 v)) (tovec m0) (bounds_of lb (tovec m0)) (mkKw (MonitorOf cb) other)) as [x fx].
+  destruct (scipy (fun v => objective (update m0 v)) (tovec m0) (bounds_of lb (tovec m0)) (mkKw (MonitorOf cb) other)) as [[x fx] wflag].
   destruct HC as (Hl & Hb). cbn.
   rewrite (tovec_update m0 x Hl). rewrite update_tovec in Hb by exact Hwf.
   repeat split; auto; apply Hb; assumption.
 Qed.
 
-(* info["final_f"] is the objective of the returned model exactly when scipy reports the value at the point it returns *)
+(* info["final_f"] IS the objective of the returned model: after an abandoned line search (warnflag 2) because the wrapper
+   re-evaluates it, otherwise because scipy reports the value at the point it returns (C13-L1 repaired) *)
 Theorem lbfgsb_final_f : scipy_reports_value -> forall kw m0 lb,
   let o := lbfgsb_solve kw m0 lb in objective (o_model o) = o_final_f o.
 Proof.
   intros HR kw m0 lb. unfold lbfgsb_solve.
   specialize (HR (fun v => objective (update m0 v)) (tovec m0) lb (mkKw (MonitorOf (user_cb (kw_callback kw))) (kw_other kw))).
-  destruct (scipy _ _ _ _) as [x fx]. cbn. now subst fx.
+  destruct (scipy _ _ _ _) as [[x fx] wflag]. cbn.
+  destruct (Nat.eqb wflag 2) eqn:E; [reflexivity|]. apply Nat.eqb_neq in E. symmetry. exact (HR E).
+Qed.
+(* after an abandoned line search nothing at all is needed from scipy's reported value *)
+Theorem lbfgsb_final_f_abandoned : forall kw m0 lb,
+  let o := lbfgsb_solve kw m0 lb in o_warnflag o = 2 -> objective (o_model o) = o_final_f o.
+Proof.
+  intros kw m0 lb. unfold lbfgsb_solve. destruct (scipy _ _ _ _) as [[x fx] wflag]. cbn. intros ->. reflexivity.
 Qed.
 (* and then (with the contract) the reported value is no worse than the start either *)
 Corollary lbfgsb_final_f_le : scipy_contract -> scipy_reports_value -> forall cb other m0 lb, wf m0 ->
@@ -292,7 +376,7 @@ Proof.
   intros HC HF cb other m0 lb. unfold lbfgsb_solve. cbn [kw_callback kw_other user_cb].
   specialize (HC (fun v => objective (update m0 v)) (tovec m0) lb (mkKw (MonitorOf cb) other)).
   specialize (HF (fun v => objective (update m0 v)) (tovec m0) lb (mkKw (MonitorOf cb) other)).
-  destruct (scipy (fun v => objective (update m0 v)) (tovec m0) (bounds_of lb (tovec m0)) (mkKw (MonitorOf cb) other)) as [x fx].
+  destruct (scipy (fun v => objective (update m0 v)) (tovec m0) (bounds_of lb (tovec m0)) (mkKw (MonitorOf cb) other)) as [[x fx] wflag].
   destruct HC as (Hl & _). cbn in *. now rewrite (tovec_update m0 x Hl).
 Qed.
 
@@ -302,29 +386,25 @@ Theorem lbfgsb_reuse : forall cb other m0 lb m1 lb1,
   lbfgsb_solve (o_kwargs (lbfgsb_solve kw m0 lb)) m1 lb1 = lbfgsb_solve kw m1 lb1.
 Proof.
   intros cb other m0 lb m1 lb1 kw. f_equal. unfold lbfgsb_solve, kw. cbn [kw_callback kw_other user_cb].
-  destruct (scipy _ _ _ _). reflexivity.
+  destruct (scipy _ _ _ _) as [[x fx] wflag]. reflexivity.
 Qed.
 End Lbfgsb.
 
-(* ---- LBFGSB.Monitor: time_trace = np.zeros((maxiter,)), every callback writes time_trace[iter] and advances iter.  scipy
-   completes (and reports through the callback) at least one iteration before it tests the iteration budget, so the number of
-   calls is at most max(maxiter, 1): the write stays inside the array for every maxiter >= 1 and falls outside for maxiter = 0
-   (open finding C13-L2); with max(maxiter, 1) slots (fixes/C13-L2.diff) it never does *)
-Definition monitor_slots (maxiter : nat) : nat := maxiter.
-Definition monitor_slots_fixed (maxiter : nat) : nat := Nat.max maxiter 1.
-(* IndexError on the k-th call (k = 0, 1, ...) *)
+(* ---- LBFGSB.Monitor: time_trace = np.zeros((max(maxiter, 1),)), every callback writes time_trace[iter] and advances iter.
+   scipy completes (and reports through the callback) at least one iteration before it tests the iteration budget, so the number
+   of calls is at most max(maxiter, 1): the write stays inside the array for EVERY maxiter, 0 included (C13-L2 repaired in /repo
+   87cee74; with the former maxiter slots the first callback of LBFGSB(maxiter=0) raised IndexError) *)
+Definition monitor_slots (maxiter : nat) : nat := Nat.max maxiter 1.
+(* IndexError on some call when more calls than slots *)
 Definition monitor_raises (slots ncalls : nat) : bool := Nat.ltb slots ncalls.
 Theorem monitor_index : forall maxiter ncalls, (ncalls <= Nat.max maxiter 1)%nat ->
-  ((1 <= maxiter)%nat -> monitor_raises (monitor_slots maxiter) ncalls = false) /\
-  monitor_raises (monitor_slots_fixed maxiter) ncalls = false /\
-  (monitor_raises (monitor_slots 0) ncalls = true <-> (1 <= ncalls)%nat).
+  monitor_raises (monitor_slots maxiter) ncalls = false /\ (1 <= monitor_slots maxiter)%nat /\
+  ((1 <= maxiter)%nat -> monitor_slots maxiter = maxiter).
 Proof.
-  intros maxiter ncalls H. unfold monitor_raises, monitor_slots, monitor_slots_fixed.
-  split; [|split; [|split]].
-  - intros Hm. apply Nat.ltb_ge. lia.
+  intros maxiter ncalls H. unfold monitor_raises, monitor_slots. split; [|split].
   - apply Nat.ltb_ge. lia.
-  - intros Hr. apply Nat.ltb_lt in Hr. lia.
-  - intros Hc. apply Nat.ltb_lt. lia.
+  - lia.
+  - lia.
 Qed.
 
 (* boolean equality of configurations, for the generated correspondence cases *)
